@@ -155,7 +155,8 @@ def run(ctx):
                 "accel=0", "accel=+-1", "accel odd neg", "accel odd pos", "accel even",
                 "r1=0,accel<0", "r1=0,accel>0", "rate at +-(2^31-1)", "rate reverses inside move",
                 "accum=clear", "accum=0", "accum=2^31-1", "accum=other", "total==kM", "total==kM-1",
-                "via:moveDistLMA", "via:moveDistLM", "ambient:dps", "ambient:prec",
+                "via:moveDistLMA", "via:moveDistLM", "ambient:dps", "ambient:prec", "ambient:decimal",
+                "ambient:decimal-trap-inexact",
                 "ambient:workdps", "chained move"):
         ctx.need(cls, 100)
     ctx.need("monitor:move_dist_lt evaluated", 50_000)
